@@ -43,6 +43,9 @@ CHECKS["C07"] = ("model_checking", "bounded-exhaustive exploration of a loop twi
 CHECKS["C08"] = ("model_checking", "bounded-exhaustive exploration of the real code: all macro bodies up to L items over an 8-item grammar x 8 macro variants, each with release / other-key events at every tick offset of the expansion, plus the 1..6 concurrent-macros family; checked against an independent expansion of the body (prefix-closed for cancel variants) with timing obligations",
   "For every enumerated (body, variant, history) the projection of the real output onto the macro's keys is the body's expansion (or a legal cancelled prefix), steps are on distinct ticks, stated delays are respected, repeating stops with the key, and nothing the macro pressed stays pressed.",
   "2 ticks of processing slack at cancel/release instants; cancel-on-press of repeat forms only required during the first round (documentation ambiguity); custom-item lag is a known finding", "DESIGN.md §4 C08")
+CHECKS["C09"] = ("model_checking", "bounded-exhaustive exploration of the real code: all chord tables of 1-3 chords over 3 participants (v2 with both release rules and per-chord disabled layers; v1 groups), for every pressed subset every press permutation x gap vector from {0,1,T-1,T,T+1} x release permutation (with a non-chord key at every position), plus all generic histories of D steps; ChordSpec reference for the determinate cases and an accounting invariant for all",
+  "No explored execution swallows or doubles a key, fires a chord that was not pressed or is disabled on the active layer, misses a chord whose keys were all pressed within the timeout, delivers non-chord keys out of order, breaks the release rule, or leaves the chord output pressed.",
+  "release latency slack T+8+2*events ticks; v1 release timing beyond the upper bound not checked (documented as inconsistent); undefined-superset cases only via accounting", "DESIGN.md §4 C09")
 NOT_YET = {}
 props = [json.loads(l) for l in open('/verif/properties.jsonl')]
 hooks_commits = subprocess.run(["git","-C","/repo","log","--format=%h %s"],capture_output=True,text=True).stdout.splitlines()
